@@ -895,4 +895,74 @@ def check_http_allocfail(ctx):
                samples=[cases[0][:200], cases[-1][:200]] if cases else [])
 
 
-SUBCHECKS = {"C08": [check_http_safety], "C09": [check_http_decode, check_http_request], "C14": [check_http_allocfail]}
+# --------------------------------------------------------------------------------------------
+# C09, known finding F12: responses that are well formed except for MAXHDR / MAXCHLEN
+
+SIG_LIMITS = "http.limits-segmentation-dependent"
+LIMIT_CASES = [("limits_chunkline.case", ["-", "r1", "r100", "r4096"]),
+               ("limits_hdrblock.case", ["-", "r100", "r4096", "r65537", "r70000"])]
+
+
+def check_http_limits(ctx):
+    """KNOWN-FINDING probe.  Each corpus file holds one abstract response (a `render` line) that satisfies
+    HttpSpec.wf_response_nolimits but not HttpSpec.within_limits.  Its rendering is played to the implementation and to
+    the model in several segmentations; the property demands HttpSpec.expect for every one of them."""
+    sub = "http.limits"
+    exe, mexe = _build(ctx, sub)
+    if not exe:
+        return
+    if replay_cases(ctx, sub) is not None:
+        return
+    groups, cases, want = [], [], []
+    for name, seglist in LIMIT_CASES:
+        lines = corpus_cases(name)
+        if len(lines) != 1 or not lines[0].startswith("render "):
+            ctx.fail(sub, "tie", name, "corpus/http/%s must hold exactly one render line" % name)
+            continue
+        rline = lines[0]
+        rend, wfnl = run_model(mexe, [rline, "wfnl " + rline[len("render "):]])
+        m = re.match(r"ok (\d) (\S+)( cb=\S+)$", rend)
+        if not m or wfnl != "ok 1 0" or m.group(1) != "0":
+            ctx.fail(sub, "tie", name, "the spec must call this response well formed without the limits and outside them: "
+                     "render -> %s..., wfnl -> %s" % (rend[:40], wfnl[:40]))
+            continue
+        stream = bytes.fromhex(m.group(2))
+        first = len(cases)
+        for segs in seglist:
+            cases.append(case_line(stream, 1 << 32, b"GET", segs, "e"))
+            want.append("cbs=1" + m.group(3) + " end=done")
+            ctx.count("c09.limits." + name.split(".")[0])
+        groups.append((name, first, len(cases)))
+    if not cases:
+        return
+    sem, health, st = run_impl(exe, cases)
+    model = run_model(mexe, cases)
+    san = first_sanitizer_line(st)
+    for name, lo, hi in groups:
+        exact, other = [], []
+        for i in range(lo, hi):
+            segs = case_fields(cases[i])["segs"]
+            hp = health_problem(health[i])
+            if hp:
+                ctx.fail(sub, "sanitizer", cases[i][:400], hp + ((" [" + san + "]") if san else ""), property_fails=True)
+            if sem[i] != model[i]:
+                ctx.fail(sub, "diff", cases[i][:400], "impl=%s model=%s" % (sem[i][-200:], model[i][-200:]),
+                         property_fails=not ctx.proof_broken)
+            got = sem[i].split(" ret=ok ", 1)[-1]
+            (exact if got == want[i] else other).append((segs, i, got))
+        if other:
+            segs, i, got = other[0]
+            ctx.fail(sub, "property", cases[i][:400] + ("..." if len(cases[i]) > 400 else ""),
+                     "corpus/http/%s (well formed except for MAXHDR/MAXCHLEN): decoded exactly for segmentations [%s] but not "
+                     "for [%s]; with %s the callback got %s" % (name, ",".join(x[0] for x in exact) or "none",
+                                                               ",".join(x[0] for x in other), segs, got[-120:]),
+                     property_fails=True, signature=SIG_LIMITS)
+    ctx.record(sub, cases, set(zip(cases, sem)),
+               "known-finding probe F12: the two corpus responses that violate only HttpSpec.within_limits (chunk-size line of "
+               "304 bytes; header block of 70 kB), rendered by the spec, played one-shot and in fixed-size segments to the "
+               "real client and the model; anything but HttpSpec.expect is reported with signature " + SIG_LIMITS,
+               samples=[cases[0][:300]])
+
+
+SUBCHECKS = {"C08": [check_http_safety], "C09": [check_http_limits, check_http_decode, check_http_request],
+             "C14": [check_http_allocfail]}
